@@ -475,6 +475,7 @@ int main(int argc, char **argv)
             b.s[b.n] = strtoul(tok[5], 0, 10); b.m[b.n] = strtoul(tok[6], 0, 10); b.d[b.n] = strtoul(tok[7], 0, 10); b.n++;
         }
         FLUSH();
+        if (fo) fprintf(fo, "STAT blend_exact %ld blend_real_compared %ld blend_real_premultiplied %ld\n", n_blend_exact, n_blend_real, n_blend_real_claim);
         return 0;
     }
     fprintf(stderr, "usage: composite gen <seed> <nbatches> <mode> <ops> <impl> <oracle> | composite exec <ops> <impl> [oracle]\n");
